@@ -36,8 +36,50 @@ func vC13Session(c vSx) (res vC13Result) {
 	comp := c.l[3].int() != 0
 	pmsSx := c.l[4].l
 	ops := c.l[5].l
-	wellformed := len(c.l) > 7 && c.l[7].int() != 0
+	// element 7: well-formed flag, or (wellformed segClient segServer early (greeting...))
+	wellformed := false
+	segC, segS, early := 0, 0, 0
+	var greet [][]byte
+	cfg := vBool(false)
+	if len(c.l) > 7 {
+		cfg = c.l[7]
+		if cfg.isList() {
+			wellformed = cfg.l[0].int() != 0
+			segC, segS, early = cfg.l[1].int(), cfg.l[2].int(), cfg.l[3].int()
+			for _, g := range cfg.l[4].l {
+				greet = append(greet, vC13Data(g))
+			}
+		} else {
+			wellformed = cfg.int() != 0
+		}
+	}
+	if !srvWrites {
+		early = 0
+	} else {
+		greet = nil
+	}
+	if early > len(ops) {
+		early = len(ops)
+	}
 	res.fromSrv, res.pmd = srvWrites, comp
+
+	// ---- prepared messages
+	pms := make([]*PreparedMessage, len(pmsSx))
+	pmT := make([]int, len(pmsSx))
+	pmD := make([][]byte, len(pmsSx))
+	for i, p := range pmsSx {
+		pmT[i], pmD[i] = p.l[0].int(), vC13Data(p.l[1])
+		// the caller reuses its buffer afterwards: NewPreparedMessage must have kept its own copy
+		cp := append([]byte{}, pmD[i]...)
+		pm, err := NewPreparedMessage(pmT[i], cp)
+		for j := range cp {
+			cp[j] ^= 0x5a
+		}
+		if err == nil {
+			pms[i] = pm
+		}
+	}
+
 
 	// ---- real opening handshake over loopback
 	vC13Start()
@@ -50,7 +92,7 @@ func vC13Session(c vSx) (res vC13Result) {
 			if err != nil {
 				return nil, err
 			}
-			rec = &vC13Rec{Conn: nc}
+			rec = &vC13Rec{Conn: &vC13Seg{Conn: nc, mode: segC, rnd: &vRng{s: uint64(len(ops))*31 + uint64(B)}}}
 			return rec, nil
 		}}
 	if srvWrites {
@@ -125,15 +167,30 @@ func vC13Session(c vSx) (res vC13Result) {
 
 	// ---- flate tap on the writer endpoint
 	var tapLog [][]byte
+	var tapIds []int
+	tapId := 0
 	if W.newCompressionWriter != nil {
 		orig := W.newCompressionWriter
 		W.newCompressionWriter = func(w io.WriteCloser, level int) io.WriteCloser {
 			r := orig(w, level)
+			tapId++
 			if fww, ok := r.(*flateWriteWrapper); ok {
-				fww.fw.Reset(&vC13Tap{inner: fww.tw, log: &tapLog})
+				fww.fw.Reset(&vC13Tap{inner: fww.tw, log: &tapLog, ids: &tapIds, id: tapId})
 			}
 			return r
 		}
+	}
+	// chunks logged since t0 by the writer that was current at the start of the operation (the
+	// implicit Close of prepWrite) and by writers created during it
+	split := func(t0, oldId int) (ich, rest [][]byte) {
+		for i := t0; i < len(tapLog); i++ {
+			if tapIds[i] == oldId {
+				ich = append(ich, tapLog[i])
+			} else {
+				rest = append(rest, tapLog[i])
+			}
+		}
+		return
 	}
 
 	// ---- peer reads
@@ -171,23 +228,6 @@ func vC13Session(c vSx) (res vC13Result) {
 		}
 		close(wdone)
 	}()
-
-	// ---- prepared messages
-	pms := make([]*PreparedMessage, len(pmsSx))
-	pmT := make([]int, len(pmsSx))
-	pmD := make([][]byte, len(pmsSx))
-	for i, p := range pmsSx {
-		pmT[i], pmD[i] = p.l[0].int(), vC13Data(p.l[1])
-		// the caller reuses its buffer afterwards: NewPreparedMessage must have kept its own copy
-		cp := append([]byte{}, pmD[i]...)
-		pm, err := NewPreparedMessage(pmT[i], cp)
-		for j := range cp {
-			cp[j] ^= 0x5a
-		}
-		if err == nil {
-			pms[i] = pm
-		}
-	}
 
 	// ---- the operations
 	W.SetWriteDeadline(time.Now().Add(6 * time.Second))
@@ -228,6 +268,7 @@ func vC13Session(c vSx) (res vC13Result) {
 	for _, op := range ops {
 		kind := op.l[0].int()
 		t0 := len(tapLog)
+		oldId := tapId
 		code := 0
 		var o vSx
 		switch kind {
@@ -240,7 +281,7 @@ func vC13Session(c vSx) (res vC13Result) {
 			if err == nil {
 				open = &exp{t: t}
 			}
-			o = vL(vZ(0), vI(t))
+			o = vL(vZ(0), vI(t), vC13Chunks(tapLog[t0:]))
 		case 1, 2, 3:
 			data := vC13Data(op.l[1])
 			if cur == nil {
@@ -298,7 +339,8 @@ func vC13Session(c vSx) (res vC13Result) {
 					expCtl = append(expCtl, exp{t, data})
 				}
 			}
-			o = vL(vZ(5), vI(t), op.l[2], vL(), vC13Chunks(tapLog[t0:]))
+			ich, rest := split(t0, oldId)
+			o = vL(vZ(5), vI(t), op.l[2], vC13Chunks(ich), vL(), vC13Chunks(rest))
 		case 6:
 			idx := op.l[1].int()
 			var ch [][]byte
@@ -344,7 +386,8 @@ func vC13Session(c vSx) (res vC13Result) {
 			if code == 0 {
 				expMsgs = append(expMsgs, exp{TextMessage, enc})
 			}
-			o = vL(vZ(7), op.l[1], vL(), vC13Chunks(tapLog[t0:]))
+			ich, rest := split(t0, oldId)
+			o = vL(vZ(7), op.l[1], vC13Chunks(ich), vL(), vC13Chunks(rest))
 		case 8:
 			t := op.l[1].int()
 			data := vC13Data(op.l[2])
